@@ -1,147 +1,342 @@
-"""C31 — module path normalisation identifies only identical files.
+"""C31 — module path normalisation identifies only identical files (kernel: `cheap_canonicalize_path`).
 
-Engine: Kani/CBMC over the real erg_common crate (overlay on pathutil.rs): NormalizedPathBuf::new =
-normalize_path(cheap_canonicalize_path(p)) over std::path::Components.
+Engine: E2 mir2smt.  The rustc MIR of `erg_common::cheap_canonicalize_path` is executed on an input path given as a sequence of
+k components whose *kinds* are solver variables; `std::path` is the environment and is modelled by its documented contract:
+`Path::components` yields RootDir only first, CurDir only first (interior `.` are normalised away by std), then ParentDir /
+Normal; `PathBuf::push` of a root replaces the buffer, of anything else appends; `PathBuf::pop` removes the last component
+(`..` included) and does nothing on `/` or the empty path.  Oracle: lexical resolution (a `..` with nothing to cancel is kept in
+a relative path and dropped at the root).  Every explored path is also run natively and must give the string the model
+predicts (translation validation of the std model), and counterexamples are replayed natively.
 
-Shape concrete, scalars symbolic: a shape fixes whether the path is absolute and the byte length (0, 1 or 2) of each
-'/'-separated component; every component byte is a solver variable over {'.', 'a', 'b'}, so the *kind* of every
-component (".", "..", a name) is symbolic without changing the string length.  Oracle: lexical resolution written in the
-harness (a stack machine; a `..` that has nothing to pop is kept in a relative path and dropped at the root of an absolute
-one).  Asserting `new(p) == canon(p)` for every p of a shape gives both halves of the property: canon is idempotent and
-two paths with equal canon forms resolve to the same file, and leading `..` components survive."""
-import itertools
-import random
+A first attempt with Kani on the compiled code (std::path::Components over symbolic bytes) did not finish: 300 s timeouts on
+4-byte paths, 40 min without a result on a 7-byte path.  `normalize_path` (`to_string_lossy().replace(..)`, a no-op on Unix
+paths) is not encoded."""
+import re
+import time
 
+import z3
+
+import mir2smt as M
 from common import (BROKEN, HELD, INCONCLUSIVE, VIOLATED, Obligation, Report, Scratch, extract_fn, log)
-from kani import Harness, KaniRun, confirm_violations
+from native import NativeRun
 
-PRELUDE = r"""
-    use std::os::unix::ffi::OsStrExt;
-    pub fn __abc(b: u8) -> bool { b == b'.' || b == b'a' || b == b'b' }
-"""
+ROOT, CUR, PARENT, NORMAL = 1, 2, 3, 4
+KIND = {ROOT: "RootDir", CUR: "CurDir", PARENT: "ParentDir", NORMAL: "Normal"}
 
 
-def shape_name(absolute, lens):
-    return ("abs" if absolute else "rel") + "_" + ("".join(map(str, lens)) or "none")
+class PIter:
+    def __init__(self, items, pos=0):
+        self.items, self.pos = items, pos
+
+    def __repr__(self):
+        return "PIter(%d/%d)" % (self.pos, len(self.items))
 
 
-def harness(absolute, lens, idem=False, canon_only=False):
-    n = (1 if absolute else 0) + sum(lens) + max(len(lens) - 1, 0)
-    L = ["        let mut buf = [0u8; %d];" % max(n, 1)]
-    offs = []
-    pos = 0
-    if absolute:
-        L.append("        buf[0] = b'/';")
-        pos = 1
-    for i, l in enumerate(lens):
-        if i > 0:
-            L.append("        buf[%d] = b'/';" % pos)
-            pos += 1
-        offs.append(pos)
-        for k in range(l):
-            L.append("        { let c: u8 = kani::any(); kani::assume(__abc(c)); buf[%d] = c; }" % (pos + k))
-        pos += l
-    assert pos == n
-    L.append("        let s: &str = std::str::from_utf8(&buf[..%d]).unwrap();" % n)
-    # reference: lexical resolution
-    m = max(len(lens), 1)
-    L.append("        let mut st_off = [0usize; %d]; let mut st_len = [0usize; %d]; let mut depth = 0usize; let mut lead = 0usize;" % (m, m))
-    for off, l in zip(offs, lens):
-        if l == 0:
-            continue
-        if l == 1:
-            L.append("        if buf[%d] == b'.' {} else { st_off[depth] = %d; st_len[depth] = 1; depth += 1; }" % (off, off))
-        else:
-            L.append("        if buf[%d] == b'.' && buf[%d] == b'.' { if depth > 0 { depth -= 1; } else if %s { lead += 1; } } else { st_off[depth] = %d; st_len[depth] = 2; depth += 1; }"
-                     % (off, off + 1, "false" if absolute else "true", off))
-    M = n + 2
-    L.append("        let mut exp = [0u8; %d]; let mut el = 0usize;" % M)
-    if absolute:
-        L.append("        exp[0] = b'/'; el = 1;")
-    L.append("        let mut first = true;")
-    L.append("        let mut i = 0; while i < lead { if !first { exp[el] = b'/'; el += 1; } exp[el] = b'.'; exp[el + 1] = b'.'; el += 2; first = false; i += 1; }")
-    L.append("        let mut i = 0; while i < depth { if !first { exp[el] = b'/'; el += 1; } let mut k = 0; while k < st_len[i] { exp[el] = buf[st_off[i] + k]; el += 1; k += 1; } first = false; i += 1; }")
-    L.append("        kani::cover!(true, \"reach\");")
-    if any(l == 2 for l in lens):
-        L.append("        kani::cover!(lead > 0 || depth < %d, \"reach-dots\");" % len([l for l in lens if l > 0]))
-    if canon_only:
-        L.append("        let out = cheap_canonicalize_path(Path::new(s));")
-    else:
-        L.append("        let out = NormalizedPathBuf::new(PathBuf::from(s));")
-    L.append("        let ob = out.as_os_str().as_bytes();")
-    L.append("        assert!(ob.len() == el, \"canon-len: the normal form has the length of the lexically resolved path\");")
-    L.append("        let mut ok = true; let mut j = 0; while j < el { if j < ob.len() && ob[j] != exp[j] { ok = false; } j += 1; }")
-    L.append("        assert!(ok, \"canon: the normal form is the lexically resolved path (leading `..` of a relative path kept, `.` and resolvable `..` removed)\");")
-    asserts = {"canon-len": "", "canon": ""}
-    if idem:
-        L.append("        let again = NormalizedPathBuf::new(out.to_path_buf());")
-        L.append("        assert!(again == out, \"idempotent: normalising a normal form changes nothing\");")
-        L.append("        std::mem::forget(again);")
-        asserts["idempotent"] = ""
-    L.append("        std::mem::forget(out);")
-    nm = ("cc_" if canon_only else "") + shape_name(absolute, lens) + ("_idem" if idem else "")
-    return Harness(nm, "\n".join(L), "%s/%s%s" % ("cheap_canonicalize_path" if canon_only else "NormalizedPathBuf::new", shape_name(absolute, lens), "/idem" if idem else ""),
-                   unwind=n + 4, fmt_stub=True, asserts=asserts,
-                   covers=["reach"] + (["reach-dots"] if any(l == 2 for l in lens) else []),
-                   meta=dict(shape="%s path, component byte lengths %s (%d bytes)" % ("absolute" if absolute else "relative", lens, n),
-                             symbolic=["every component byte over {'.', 'a', 'b'} (so each component is symbolically `.`, `..` or a name)"],
-                             bounds={"components": len(lens), "bytes": n}, cost=n * n + (n * n if idem else 0)))
+class PBuf:
+    def __init__(self, entries=()):
+        self.entries = tuple(entries)
+
+    def __repr__(self):
+        return "PBuf%r" % (self.entries,)
 
 
-def shapes(tier, seed):
-    if tier == "quick":
-        base = [(False, []), (False, [1]), (False, [2]), (True, [1]), (True, [2]), (False, [2, 1]), (False, [1, 2]), (False, [2, 2]),
-                (True, [2, 1]), (True, [1, 2]), (False, [2, 2, 1]), (False, [1, 2, 2]), (True, [2, 2, 1]), (False, [1, 0, 1]), (False, [2, 1, 2, 1])]
-        idem = [(False, [2, 1]), (True, [1, 2])]
-        rnd = random.Random(seed)
-        pool = [(a, list(l)) for a in (False, True) for k in (3, 4) for l in itertools.product((1, 2), repeat=k)]
-        pool = [p for p in pool if p not in base]
-        rnd.shuffle(pool)
-        return base + pool[:3], idem
-    base = [(a, list(l)) for a in (False, True) for k in range(0, 5) for l in itertools.product((1, 2), repeat=k)] + \
-           [(False, [1, 0, 1]), (True, [2, 0, 2]), (False, [2, 2, 2, 2, 1]), (False, [2, 1, 2, 1, 2, 1]), (True, [1, 2, 1, 2, 1, 2])]
-    idem = [(a, list(l)) for a in (False, True) for k in (1, 2, 3) for l in itertools.product((1, 2), repeat=k)]
-    return base, idem
+class OsV:
+    def __init__(self, kind, name=None):
+        self.kind, self.name = kind, name
 
 
 def run(tier, seed, only=None):
     rep = Report("C31", tier, seed, "other",
-                 "Bounded model checking (Kani/CBMC) of NormalizedPathBuf::new (normalize_path . cheap_canonicalize_path over "
-                 "std::path::Components) against lexical path resolution written in the harness: for every path of each listed shape "
-                 "(absolute/relative, component byte lengths; every component byte symbolic over {., a, b}, so component kinds are symbolic) "
-                 "the normal form equals the resolved path, which implies idempotence, that equal normal forms name the same file, and that "
-                 "leading `..` components of relative paths survive; idempotence is also asserted directly on small shapes.", partial=bool(only))
+                 "Kernel-level claim on cheap_canonicalize_path (the function NormalizedPathBuf::new rests on): symbolic execution of its rustc MIR over "
+                 "paths of up to 4 (thorough: 6) components whose kinds (root, `.`, `..`, name) are solver variables, std::path modelled by its "
+                 "documented contract; z3-guided path exploration decides that the result is the lexically resolved path (so normalisation is "
+                 "idempotent, equal normal forms name the same file, leading `..` of relative paths survive); every explored path is "
+                 "replayed natively against the real function and std.  normalize_path and symbolic links are outside.", partial=bool(only))
+    rep.trusted += ["rustc nightly -Zunpretty=mir", "engines/mir2smt.py", "the std::path contract model in props/c31.py (validated natively on every explored path)", "z3 " + z3.get_version_string()]
     s = Scratch("c31")
     try:
-        kr = KaniRun(s, "erg_common", "crates/erg_common", tier, workers=10, mem_gb=8, cap=300 if tier == "quick" else 1500)
+        text, dt, err, rc = M.dump_mir(s, "erg_common", overflow_checks=True, extra_cargo=["--lib"])
+        if rc != 0 or len(text) < 1000:
+            log("MIR dump failed:\n" + err[-3000:])
+            rep.add(Obligation(key="mir-dump", verdict=BROKEN, reason="cargo +nightly rustc -Zunpretty=mir failed"))
+            return rep.finish()
+        log("  MIR dump erg_common: %.0fs, %d KB" % (dt, len(text) >> 10))
+        fns = M.parse_mir(text, want=["cheap_canonicalize_path"])
+        fn = [f for f in fns.values() if f.short == "cheap_canonicalize_path"]
         ltxt = s.read("crates/erg_common/lib.rs")
-        ptxt = s.read("crates/erg_common/pathutil.rs")
         rep.add_function("cheap_canonicalize_path", "crates/erg_common/lib.rs", extract_fn(ltxt, "cheap_canonicalize_path"))
-        rep.add_function("normalize_path", "crates/erg_common/lib.rs", extract_fn(ltxt, "normalize_path"))
-        rep.add_function("NormalizedPathBuf::new", "crates/erg_common/pathutil.rs", extract_fn(ptxt, "new"))
-        base, idem = shapes(tier, seed)
-        for a, l in base:
-            kr.add("crates/erg_common/pathutil.rs", harness(a, l), PRELUDE)
-            kr.add("crates/erg_common/pathutil.rs", harness(a, l, canon_only=True), PRELUDE)
-        for a, l in idem:
-            kr.add("crates/erg_common/pathutil.rs", harness(a, l, idem=True), PRELUDE)
-        if only:
-            for f in kr.frags.values():
-                f["harnesses"] = [h for h in f["harnesses"] if only in h.name]
-        kr.run()
-        for h in kr.all_harnesses():
-            for o in kr.obligations(h, functions=["NormalizedPathBuf::new", "cheap_canonicalize_path", "normalize_path"]):
-                rep.add(o)
-        confirm_violations(rep, s, [kr])
-        rep.trusted += ["Kani 0.68, CBMC 6.11, CaDiCaL", "std::path::{Components, PathBuf::push/pop} as compiled from std",
-                        "the lexical-resolution reference in props/c31.py"]
+        if len(fn) != 1:
+            rep.add(Obligation(key="mir/function", verdict=BROKEN, reason="cheap_canonicalize_path not found in the MIR dump"))
+            return rep.finish()
+        fn = fn[0]
+        enums = {"Option": ["None", "Some"], "Component": ["Prefix", "RootDir", "CurDir", "ParentDir", "Normal"]}
+        kmax = 4 if tier == "quick" else 6
+        all_paths = []          # (kinds, names, predicted string)
+        to_report = []
+
+        def deref(I, st, v):
+            if isinstance(v, M.Ref):
+                fr = I.frame_by_id(st, v.frame)
+                return I.load_raw(st, fr, v.local, list(v.proj))
+            return v
+
+        def put(I, st, r, val):
+            fr = I.frame_by_id(st, r.frame)
+            if r.proj:
+                raise M.Unsupported("projected reference to a path object")
+            fr.locals[r.local] = val
+
+        def kind_of(I, st, comp):
+            ks = [k for k in (0, ROOT, CUR, PARENT, NORMAL) if I.feasible(st.pc, comp.discr == k)]
+            if len(ks) != 1:
+                raise M.Unsupported("component kind not determined on this path (%s)" % ks)
+            return ks[0]
+
+        for k in range(0, kmax + 1):
+            if only and only != "k%d" % k:
+                continue
+            I = M.Interp(fns, enums, max_paths=6000, timeout_s=600)
+            comps = []
+            assm = []
+            for i in range(k):
+                c = M.Enum("std::path::Component<'_>", z3.BitVec("c%d_kind" % i, 64), {"Normal": {0: OsV(NORMAL, z3.BitVec("c%d_name" % i, 8))}})
+                comps.append(c)
+                allowed = [PARENT, NORMAL] + ([ROOT, CUR] if i == 0 else [])
+                assm.append(z3.Or([c.discr == a for a in allowed]))
+
+            def comp_of(entry):
+                kd = {"root": ROOT, "parent": PARENT, "cur": CUR, "name": NORMAL}[entry[0]]
+                pl = {"Normal": {0: OsV(NORMAL, entry[1])}} if kd == NORMAL else {}
+                return M.Enum("std::path::Component<'_>", M.bv(64, kd), pl)
+
+            def m_components(I_, st, fr, callee, args, dty, work, at):
+                a = deref(I_, st, args[0])
+                if isinstance(a, M.Ref):
+                    a = deref(I_, st, a)
+                if isinstance(a, PBuf):          # the components of a buffer built so far
+                    return PIter(tuple(comp_of(e) for e in a.entries))
+                return PIter(tuple(comps))       # the input path
+
+            def m_next_back(I_, st, fr, callee, args, dty, work, at):
+                r = args[0]
+                it = deref(I_, st, r)
+                if it.pos >= len(it.items):
+                    return M.Enum(dty, M.bv(64, 0), {})
+                put(I_, st, r, PIter(it.items[:-1], it.pos))
+                return M.Enum(dty, M.bv(64, 1), {"Some": {0: it.items[-1]}})
+
+            def m_ident(I_, st, fr, callee, args, dty, work, at):
+                return args[0]
+
+            def m_peek(I_, st, fr, callee, args, dty, work, at):
+                it = deref(I_, st, args[0])
+                if it.pos >= len(it.items):
+                    return M.Enum(dty, M.bv(64, 0), {})
+                return M.Enum(dty, M.bv(64, 1), {"Some": {0: it.items[it.pos]}})       # cloned() right after: the component itself
+
+            def m_next(I_, st, fr, callee, args, dty, work, at):
+                r = args[0]
+                it = deref(I_, st, r)
+                if it.pos >= len(it.items):
+                    return M.Enum(dty, M.bv(64, 0), {})
+                put(I_, st, r, PIter(it.items, it.pos + 1))
+                return M.Enum(dty, M.bv(64, 1), {"Some": {0: it.items[it.pos]}})
+
+            def m_as_os_str(I_, st, fr, callee, args, dty, work, at):
+                c = args[0]
+                kd = kind_of(I_, st, c)
+                if kd == NORMAL:
+                    return c.payload["Normal"][0]
+                return OsV(kd)
+
+            def m_pb_new(I_, st, fr, callee, args, dty, work, at):
+                return PBuf(())
+
+            def m_pb_from(I_, st, fr, callee, args, dty, work, at):
+                raise M.Unsupported("PathBuf::from(prefix): no prefixes on this platform")
+
+            def m_push(I_, st, fr, callee, args, dty, work, at):
+                r, o = args
+                pb = deref(I_, st, r)
+                if isinstance(o, M.Opaque) and o.tag.strip('"') in ("..", ".", "/"):
+                    o = OsV({"..": PARENT, ".": CUR, "/": ROOT}[o.tag.strip('"')])
+                if not isinstance(o, OsV) or not isinstance(pb, PBuf):
+                    raise M.Unsupported("PathBuf::push argument %r" % (o,))
+                if o.kind == ROOT:
+                    put(I_, st, r, PBuf((("root",),)))           # pushing an absolute path replaces the buffer
+                elif o.kind == NORMAL:
+                    put(I_, st, r, PBuf(pb.entries + (("name", o.name),)))
+                elif o.kind == PARENT:
+                    put(I_, st, r, PBuf(pb.entries + (("parent",),)))
+                elif o.kind == CUR:
+                    put(I_, st, r, PBuf(pb.entries + (("cur",),)))
+                return M.Agg("()", [])
+
+            def m_pop(I_, st, fr, callee, args, dty, work, at):
+                r = args[0]
+                pb = deref(I_, st, r)
+                if pb.entries and pb.entries[-1][0] != "root":
+                    put(I_, st, r, PBuf(pb.entries[:-1]))
+                    return M.Scalar(z3.BoolVal(True), "bool")
+                return M.Scalar(z3.BoolVal(False), "bool")
+
+            def m_parent(I_, st, fr, callee, args, dty, work, at):
+                # Path::parent on a PathBuf model (used by refactorings of the `..` arm): None for `/` and for the empty path
+                pb = deref(I_, st, args[0])
+                if isinstance(pb, M.Ref):
+                    pb = deref(I_, st, pb)
+                if not isinstance(pb, PBuf):
+                    raise M.Unsupported("Path::parent argument")
+                if pb.entries and pb.entries[-1][0] != "root":
+                    return M.Enum(dty, M.bv(64, 1), {"Some": {0: PBuf(pb.entries[:-1])}})
+                return M.Enum(dty, M.bv(64, 0), {})
+
+            def m_unwrap_or_default(I_, st, fr, callee, args, dty, work, at):
+                e = args[0]
+                if z3.is_true(z3.simplify(e.discr == 1)):
+                    return e.payload["Some"][0]
+                return PBuf(())
+
+            def m_opt_map_to_path_buf(I_, st, fr, callee, args, dty, work, at):
+                return args[0]
+            I.models[r"^Path::components$"] = m_components
+            I.models[r"as Iterator>::peekable$|as IntoIterator>::into_iter$|^Option::<&Component<'_>>::cloned$|^Path::to_path_buf$|as Deref>::deref$|as AsRef<Path>>::as_ref$|^PathBuf::as_path$"] = m_ident
+            I.models[r"^Peekable::<Components<'_>>::peek$"] = m_peek
+            I.models[r"^<Peekable<Components<'_>> as Iterator>::next$|^<Components<'_> as Iterator>::next$"] = m_next
+            I.models[r"as DoubleEndedIterator>::next_back$"] = m_next_back
+            I.models[r"^Component::<'_>::as_os_str$"] = m_as_os_str
+            I.models[r"^PathBuf::new$"] = m_pb_new
+            I.models[r"^<PathBuf as From<&OsStr>>::from$"] = m_pb_from
+            I.models[r"^PathBuf::push::<"] = m_push
+            I.models[r"^PathBuf::pop$"] = m_pop
+            I.models[r"^Path::parent$"] = m_parent
+            I.models[r"^Option::<PathBuf>::unwrap_or_default$"] = m_unwrap_or_default
+            I.models[r"^Option::<&Path>::map::<PathBuf"] = m_opt_map_to_path_buf
+            base = dict(engine="mir2smt (MIR -> z3 %s)" % z3.get_version_string(), solver="z3", functions=["cheap_canonicalize_path"],
+                        shape="paths of %d component(s)" % k, symbolic=["the kind of every component (RootDir/CurDir only first, ParentDir, Normal)", "component names (8-bit ids)"],
+                        bounds={"components": k})
+            t0 = time.time()
+            outs = I.run(fn, [M.Opaque("&Path", "path")], assm)
+            base["stubs"] = sorted(I.models_used)
+            unsup = [o for o in outs if o.kind == "unsupported"]
+            if unsup:
+                rep.add(Obligation(base, key="canon/k=%d" % k, verdict=INCONCLUSIVE, reason="unsupported-construct: %s @%s" % (unsup[0].msg[:160], unsup[0].where)))
+                continue
+            bad = None
+            npaths = 0
+            for o in outs:
+                if o.kind == "panic":
+                    I.solver.push()
+                    for c in list(o.pc) + assm:
+                        I.solver.add(c)
+                    if I.solver.check() == z3.sat:
+                        mdl = I.solver.model()
+                        kinds = [mdl.eval(c.discr, model_completion=True).as_long() for c in comps]
+                        bad = bad or (kinds, None, "a panic is reachable: " + o.msg)
+                    I.solver.pop()
+                    continue
+                I.solver.push()
+                for c in list(o.pc) + assm:
+                    I.solver.add(c)
+                r = I.solver.check()
+                mdl = I.solver.model() if r == z3.sat else None
+                I.solver.pop()
+                if mdl is None:
+                    continue
+                npaths += 1
+                kinds = [mdl.eval(c.discr, model_completion=True).as_long() for c in comps]
+                got = o.value.entries if isinstance(o.value, PBuf) else None
+                # reference: lexical resolution
+                absolute = bool(kinds) and kinds[0] == ROOT
+                stack = []
+                for i, kd in enumerate(kinds):
+                    if kd in (ROOT, CUR):
+                        continue
+                    if kd == PARENT:
+                        if stack and stack[-1][0] == "name":
+                            stack.pop()
+                        elif absolute and not stack:
+                            pass
+                        else:
+                            stack.append(("parent",))
+                    else:
+                        stack.append(("name", i))
+                want = ([("root",)] if absolute else []) + stack
+
+                def norm(entries):
+                    out_ = []
+                    for e in entries or ():
+                        if e[0] == "name":
+                            nm = e[1]
+                            if not isinstance(nm, int):
+                                nm = [j for j, c in enumerate(comps) if c.payload["Normal"][0].name is nm][0]
+                            out_.append(("name", nm))
+                        else:
+                            out_.append((e[0],))
+                    return out_
+
+                def as_str(entries, kinds_):
+                    parts = []
+                    root = False
+                    for e in entries:
+                        if e[0] == "root":
+                            root = True
+                        elif e[0] == "parent":
+                            parts.append("..")
+                        elif e[0] == "cur":
+                            parts.append(".")
+                        else:
+                            parts.append("n%d" % e[1])
+                    return ("/" if root else "") + "/".join(parts)
+                inp = ("/" if absolute else "") + "/".join({CUR: ".", PARENT: "..", NORMAL: None, ROOT: ""}[kd] if kd != NORMAL else "n%d" % i for i, kd in enumerate(kinds) if kd != ROOT)
+                all_paths.append((k, kinds, inp, as_str(norm(got), kinds) if got is not None else None, as_str(want, kinds)))
+                if got is None or norm(got) != want:
+                    bad = bad or (kinds, inp, "cheap_canonicalize_path(%r) is %r in the model, lexical resolution gives %r" % (inp, as_str(norm(got), kinds) if got is not None else None, as_str(want, kinds)))
+            if npaths == 0:
+                rep.add(Obligation(base, key="canon/k=%d" % k, verdict=BROKEN, reason="no path explored (vacuous)"))
+            elif bad:
+                ob = Obligation(base, key="canon/k=%d" % k, verdict=VIOLATED, model={"kinds": [KIND.get(x, x) for x in bad[0]], "path": bad[1]}, reason=bad[2], queries=I.queries)
+                rep.add(ob)
+                to_report.append((ob, bad[1]))
+            else:
+                rep.add(Obligation(base, key="canon/k=%d" % k, verdict=HELD, queries=I.queries, solver_s=round(I.solver_s, 3),
+                                   reason="for all %d kind sequences of %d component(s) the result is the lexically resolved path (leading `..` kept, `.` and resolvable `..` removed)" % (npaths, k)))
+        # native: every explored path through the real function (translation validation of the std::path model) + replay of counterexamples
+        if all_paths:
+            nr = NativeRun(s, "erg_common", "crates/erg_common/lib.rs")
+            seen = {}
+            for k, kinds, inp, pred, want in all_paths:
+                if inp not in seen:
+                    seen[inp] = "p%d" % len(seen)
+                    nr.add(seen[inp], 'cheap_canonicalize_path(std::path::Path::new("%s")).to_string_lossy().to_string()' % inp)
+            res, _dt = nr.run()
+            if res is None:
+                rep.add(Obligation(key="translation-validation", engine="native", verdict=BROKEN, reason="native build/run failed: " + nr.logs.get("dev", "")[-300:]))
+            else:
+                mism = []
+                for k, kinds, inp, pred, want in all_paths:
+                    real = res.get(seen[inp])
+                    if real != pred:
+                        mism.append("%r: model %r, real %r" % (inp, pred, real))
+                    else:
+                        rep.replayed += 1
+                if mism:
+                    rep.add(Obligation(key="translation-validation", engine="mir2smt vs native", verdict=BROKEN,
+                                       reason="the std::path model disagrees with the real code on: " + "; ".join(mism[:4])))
+                else:
+                    rep.add(Obligation(key="translation-validation", engine="mir2smt vs native (cargo test on the scratch copy)", verdict=HELD, nontrivial=False,
+                                       reason="all %d explored paths give natively exactly the string the model predicts" % len(seen)))
+                for ob, inp in to_report:
+                    if inp is not None:
+                        ob["native_replay"] = {"input": inp, "real": res.get(seen.get(inp))}
         rep.assumptions += [
-            "Unix path syntax, CASE_SENSITIVE as built on this platform (normalize_path lower-cases only when it is false)",
-            "component names over the alphabet {'.', 'a', 'b'}, 1 or 2 bytes each (an empty component stands for `//`); longer names and more components than listed are outside the claim",
-            "symbolic links and the file system are outside: the reference is lexical resolution",
+            "std::path is the environment, modelled by its documented contract (Unix): Components yields RootDir / CurDir only as the first item and drops interior `.`; "
+            "PathBuf::push(root) replaces, push(other) appends; PathBuf::pop removes the last component, `..` included, and is a no-op on `/` and on the empty path; the model is "
+            "validated natively on every explored path",
+            "normalize_path (verbatim-prefix stripping, case folding on case-insensitive platforms) is not encoded; symbolic links and the file system are outside (the reference is lexical resolution)",
+            "components beyond the stated count are outside the claim; names are opaque and distinct ids",
         ]
-        rep.extra["shapes"] = [shape_name(a, l) for a, l in base]
-        rep.extra["kani_build_s"] = kr.build_s
+        rep.extra["explored_paths"] = len(all_paths)
         return rep.finish()
     finally:
         s.cleanup()
